@@ -186,3 +186,45 @@ def inline_base_entry_points(ctx, prog):
             h = _inl.inline_in_place(prog, f, skip={'_check', '_update', '_initialize', '_compute', '_accumulate', '_initialize_accumulators'})
             if h:
                 ctx.note(f'{f.key}: helpers inlined before analysis: {h}')
+
+
+def binding_constants(prog, attr):
+    """(set of constants plainly bound to <obj>.<attr> anywhere in the package, [(Func, node)] of bindings whose value is not a
+    constant or a parameter that every call site binds to a constant); augmented assignments are not bindings"""
+    from . import kernels
+    from .model import const_value
+    consts, other = set(), []
+    for f in prog.funcs:
+        for t, st, how in kernels.stores(f.node):
+            if not (isinstance(t, ast.Attribute) and t.attr == attr and how == 'bind') or isinstance(st, ast.AugAssign):
+                continue
+            v = st.value
+            if isinstance(v, ast.Constant):
+                consts.add(v.value)
+            elif isinstance(v, ast.Name) and v.id in f.params:
+                vals, ok, sites = set(), True, 0
+                for g in prog.funcs:
+                    for n in ast.walk(g.node):
+                        if isinstance(n, ast.Call) and isinstance(n.func, (ast.Name, ast.Attribute)) and prog.dotted(g.mod, n.func) == f.mod.name + '.' + f.qualname:
+                            arg = None
+                            for i, a in enumerate(n.args):
+                                if i < len(f.params) and f.params[i] == v.id:
+                                    arg = a
+                            for k in n.keywords:
+                                if k.arg == v.id:
+                                    arg = k.value
+                            if arg is None:
+                                d = dict(zip(reversed(f.params), reversed(f.node.args.defaults)))
+                                arg = d.get(v.id)
+                            if isinstance(arg, ast.Constant):
+                                vals.add(arg.value)
+                                sites += 1
+                            else:
+                                ok = False
+                if ok and sites:
+                    consts |= vals
+                else:
+                    other.append((f, st))
+            else:
+                other.append((f, st))
+    return consts, other
